@@ -80,6 +80,9 @@ def oracle(case, obs):
     scale = max([abs(x) for x in allv] + [Fraction(1)])
     eps = Fraction(0) if case["stream"] == "exact" else scale * Fraction(1, 10 ** 7)
     g = f"grid {case['gname']}"
+    for stg, o in zip(st, v):
+        if stg["case"]["cls"] == "sdsm" and not _close(_vals(o, "stock"), [Fraction(x) for x in stg["case"]["driver"]], eps):
+            return f"{g}: the prescribed stock was altered by compute() ({stg['case'].get('solver')} solver)"
     if case["direction"] == "inflow-first":
         i0 = [Fraction(x) for x in case["base"]["driver"]]
         for j, name in ((1, "manual"), (2, "lapack")):
